@@ -1494,7 +1494,12 @@ def wake_query(ctx, name, chan, N, MS, k, producers, registered, timeout_s, slac
     for t, prog in enumerate(producers):
         calls = []
         for j, op in enumerate(prog):
-            v = w.sym("v%d_%d" % (t, j)); vals.append(v); calls.append((f_send, [ch, v], "send"))
+            v = w.sym("v%d_%d" % (t, j)); vals.append(v)
+            if op == "reserved":        # reserve_slot + fill + try_send_reserved (the atomic channel's zero-copy entry point)
+                if chan != "uni_move_atomic": raise EncodingError("reservations: movable atomic channel only")
+                calls.append((ctx.helper("uma_reserve_fill_send_or_cancel"), [ch, v], "reserved"))
+            else:
+                calls.append((f_send, [ch, v], "send"))
         graphs.append(build_thread(it, t, calls, w.mem))
     T = len(producers)
     cx = Agg("Context", [Agg("Waker", [BV(8, 0)])])
@@ -1523,7 +1528,7 @@ def wake_query(ctx, name, chan, N, MS, k, producers, registered, timeout_s, slac
         inp = {nm: model.eval(v, model_completion=True).as_long() for nm, v in w.inputs.items()}
         rec["inputs"] = inp
         rec["model_final"] = {"pending": str(model.eval(pending, model_completion=True)), "err": str(model.eval(b.err[S], model_completion=True))}
-        progs = [["send:%d" % inp["v%d_%d" % (t, j)] for j in range(len(prog))] for t, prog in enumerate(producers)] + [["drive"]]
+        progs = [[("reserve_send_or_cancel:%d" if op == "reserved" else "send:%d") % inp["v%d_%d" % (t, j)] for j, op in enumerate(prog)] for t, prog in enumerate(producers)] + [["drive"]]
         prefill_vals = [inp["pre%d" % i] for i in range(k)]
         segs = replay.segments_from_trace(rec["trace"])
         def symptom(h):
@@ -1547,6 +1552,9 @@ def _c04_registry(add, tier, TO):
     q("c04_full_sync_parked_vs_send", "quick", "uni_move_full_sync", 2, 1, 0, [["send"]], True)
     q("c04_atomic_first_park_vs_send", "quick", "uni_move_atomic", 2, 1, 0, [["send"]], False)
     q("c04_atomic_parked_vs_two_sends", "quick", "uni_move_atomic", 2, 1, 0, [["send", "send"]], True)
+    q("c04_atomic_parked_vs_reserved_ms1", "quick", "uni_move_atomic", 2, 1, 0, [["reserved"]], True)
+    q("c04_atomic_parked_vs_reserved_ms2", "quick", "uni_move_atomic", 2, 2, 0, [["reserved"]], True)
+    q("c04_atomic_parked_vs_send_ms2", "quick", "uni_move_atomic", 2, 2, 0, [["send"]], True)
     q("c04_full_sync_parked_vs_two_producers", "thorough", "uni_move_full_sync", 2, 1, 0, [["send"], ["send"]], True)
     q("c04_atomic_parked_vs_three_sends_n4", "thorough", "uni_move_atomic", 4, 1, 0, [["send", "send", "send"]], True)
 
